@@ -55,6 +55,7 @@ type App struct {
 	Who       string
 	FromAppFn func(m *quickfix.Message) quickfix.MessageRejectError
 	ToAdminFn func(m *quickfix.Message)
+	ToAppFn   func(m *quickfix.Message) error
 	Logons    int64
 }
 
@@ -79,6 +80,9 @@ func (a *App) ToAdmin(m *quickfix.Message, _ quickfix.SessionID) {
 }
 func (a *App) ToApp(m *quickfix.Message, _ quickfix.SessionID) error {
 	a.rec("ToApp", m)
+	if a.ToAppFn != nil {
+		return a.ToAppFn(m)
+	}
 	return nil
 }
 func (a *App) FromAdmin(m *quickfix.Message, _ quickfix.SessionID) quickfix.MessageRejectError {
@@ -201,8 +205,9 @@ type Options struct {
 	R         *Recorder
 	Delay     func(op string)
 	Fail      func(op string, n int, msg []byte) error
-	SQLDriver string                    // database/sql driver name for StoreKind "sql" (default sqlite3)
-	ToAdmin   func(m *quickfix.Message) // runs inside the engine's ToAdmin callback (user code: may take time)
+	ToApp     func(m *quickfix.Message) error // the application's ToApp callback (may veto a send)
+	SQLDriver string                          // database/sql driver name for StoreKind "sql" (default sqlite3)
+	ToAdmin   func(m *quickfix.Message)       // runs inside the engine's ToAdmin callback (user code: may take time)
 }
 
 // Engine is a running Acceptor or Initiator with one session.
@@ -247,7 +252,7 @@ func settingsText(o Options, initiator bool) string {
 
 func start(o Options, initiator bool) (*Engine, error) {
 	e := &Engine{Opt: o, SID: quickfix.SessionID{BeginString: o.Begin, SenderCompID: o.Sender, TargetCompID: o.Target}}
-	e.App = &App{R: o.R, Who: o.Who, ToAdminFn: o.ToAdmin}
+	e.App = &App{R: o.R, Who: o.Who, ToAdminFn: o.ToAdmin, ToAppFn: o.ToApp}
 	text := settingsText(o, initiator)
 	st, err := quickfix.ParseSettings(strings.NewReader(text))
 	if err != nil {
